@@ -118,6 +118,13 @@ def is_aliased(key, case=None):
     return (spec[0] == "tbl" and bool(spec[3])) or spec[0] in ("sub", "cte")
 
 
+def _mk_colitem(node, env):
+    return env.src(node[1])[node[2]]
+
+
+prog.EXTRA_NODES["colitem"] = _mk_colitem
+
+
 class Builder:
     def __init__(self, draw, cls):
         self.draw = draw
@@ -130,6 +137,8 @@ class Builder:
         self.n += 1
         name = "f%d" % self.n
         self.occ.append([name, key, pos])
+        if self.draw is not None and self.draw(st.integers(0, 3)) == 0:
+            return ["colitem", key, name]  # the same column written source["name"] (Selectable.__getitem__ and its overrides)
         return ["col", key, name]
 
     def d(self, s):
@@ -588,7 +597,7 @@ def valid_case(case):
             return False
         # every recorded occurrence names the source the program really takes the column from
         for name, key, pos in case["occ"]:
-            if key is not None and ('["col", "%s", "%s"]' % (key, name)) not in txt and ('["py", "%s"]' % name) not in txt:
+            if key is not None and ('["col", "%s", "%s"]' % (key, name)) not in txt and ('["colitem", "%s", "%s"]' % (key, name)) not in txt and ('["py", "%s"]' % name) not in txt:
                 return False
         if bool(case.get("foreign")) != ('["col", "F",' in txt):
             return False  # the recorded facts (a reference to a table outside the statement) must still describe the program
